@@ -9,6 +9,15 @@
 // VM state, U's op log, notification list, storage of all instances, token
 // balances, Policy setting.
 //
+// Besides the programs of U the same machinery runs hand-assembled entry
+// scripts (hasm_test.go, hspaces_test.go: handlers nested in ONE context, calls
+// from TRY/CATCH/FINALLY parts and subroutine frames), calls through method
+// tokens of a conduit contract (wtoken_test.go) and the families of
+// famspaces_test.go (iterator across a rollback, self-destruction, deployment).
+// Real blocks are additionally compared with a twin replica on which every
+// failed-and-caught callee is a bare THROW (twin_test.go: equal state roots), and
+// every batch of test invocations must leave the node it ran on unchanged.
+//
 // Layer B (transaction atomicity, atomic_test.go): a block containing a
 // faulting transaction must leave exactly the state of the twin block in which
 // that transaction is a bare ABORT with the same signers and fees; the
@@ -51,8 +60,38 @@ type checker struct {
 	states                            *vk.Set
 	// hand-assembled scripts: what the handlers did (model), over all executions
 	hProgs, hCatches, hFinallies, hFinalliesPending, hSwallowed, hHaltUndone, hHalt, hFault vk.Counter
+	leakChecks vk.Counter // chunks of test invocations after which the node's committed state was compared with the prepared one
 	twins      vk.Counter // block-mode programs compared with their bare-THROW twin
 	twinStates *vk.Set    // distinct state roots reached by them
+	famStats   []*famStat
+}
+
+// famStat: what the model said about the programs of one family (test invocations).
+type famStat struct {
+	Name                                                       string
+	progs, haltUndone, haltRestoredNoop, haltPlain, fault vk.Counter
+	states, logs                                               *vk.Set
+}
+
+func (fs *famStat) add(m *Result) {
+	fs.progs.Inc()
+	fs.states.Add(stateSig(m.State))
+	fs.logs.Add(m.Log)
+	switch {
+	case !m.Halt:
+		fs.fault.Inc()
+	case m.Undone:
+		fs.haltUndone.Inc()
+	case m.Restores > 0:
+		fs.haltRestoredNoop.Inc()
+	default:
+		fs.haltPlain.Inc()
+	}
+}
+
+func (fs *famStat) cov() map[string]any {
+	return map[string]any{"family": fs.Name, "cases": fs.progs.Get(), "halt_callee_changes_undone": fs.haltUndone.Get(), "halt_callee_failed_nothing_to_undo": fs.haltRestoredNoop.Get(),
+		"halt_no_failure": fs.haltPlain.Get(), "fault": fs.fault.Get(), "distinct_final_states": fs.states.Len(), "distinct_op_logs": fs.logs.Len()}
 }
 
 const perClassCap = 3
@@ -343,15 +382,25 @@ func TestCheck(t *testing.T) {
 			"nested_kinds_level1": sp.Kinds[1], "nested_kinds_level2": sp.Kinds[2], "programs": len(ps), "new_programs": fresh, "also_in_real_blocks": sp.Block})
 		fmt.Printf("space %s: %d programs (%d new)\n", sp.Name, len(ps), fresh)
 	}
+	// per-family statistics of the newer families (first family a program belongs to)
+	famOf := map[string]*famStat{}
+	var famStats []*famStat
+	newFam := func(name string) *famStat {
+		fs := &famStat{Name: name, states: vk.NewSet(), logs: vk.NewSet()}
+		famStats = append(famStats, fs)
+		return fs
+	}
 	// hand-assembled entry scripts: handlers nested in one context
 	hInfo := []map[string]any{}
 	for _, hs := range hspaces(r.Thorough(), c.s0) {
 		fresh := 0
+		fs := newFam(hs.Name)
 		for _, p := range hs.Progs {
 			if !seen[p] {
 				seen[p] = true
 				fresh++
 				all = append(all, p)
+				famOf[p] = fs
 			}
 			if hs.Block && !seenBlk[p] {
 				seenBlk[p] = true
@@ -362,11 +411,37 @@ func TestCheck(t *testing.T) {
 		hInfo = append(hInfo, hs.Info)
 		fmt.Printf("space %s: %d programs (%d new)\n", hs.Name, len(hs.Progs), fresh)
 	}
+	// hand-enumerated families (iterators across rollback, self-destruction, deployment)
+	var solo []string
+	for _, fm := range families(c.s0) {
+		fresh := 0
+		fs := newFam(fm.Name)
+		for _, p := range fm.Progs {
+			if !seen[p] {
+				seen[p] = true
+				fresh++
+				all = append(all, p)
+				famOf[p] = fs
+			}
+			if !seenBlk[p] {
+				seenBlk[p] = true
+				if fm.Solo {
+					solo = append(solo, p)
+				} else {
+					blk = append(blk, p)
+				}
+			}
+		}
+		fm.Info["name"], fm.Info["programs"], fm.Info["new_programs"], fm.Info["also_in_real_blocks"] = fm.Name, len(fm.Progs), fresh, true
+		hInfo = append(hInfo, fm.Info)
+		fmt.Printf("space %s: %d programs (%d new)\n", fm.Name, len(fm.Progs), fresh)
+	}
 	seen, seenBlk = nil, nil
 	sortProgs(all)
 	sortProgs(blk)
 
 	var undone, restoredNoop, faulted, plain vk.Counter
+	s0sig := stateSig(c.s0)
 	const chunk = 256
 	nch := (len(all) + chunk - 1) / chunk
 	r.Parallel(nch, func(ci int) {
@@ -375,7 +450,37 @@ func TestCheck(t *testing.T) {
 			c.harness(err)
 			return
 		}
-		defer c.putRig(rg)
+		leaked := false
+		defer func() {
+			// test invocations must not leave anything in the node they ran on: the committed
+			// state (read through the node's own DAO and native caches) is still the prepared one
+			st, err := rg.initState()
+			if err != nil {
+				// the node's getters (native caches) disagree with its storage
+				ps := all[ci*chunk : min(len(all), (ci+1)*chunk)]
+				r.Outcome("A:test:node-state-changed")
+				if c.admit("test", []string{"test-invocations-changed-the-node"}) {
+					r.Violation(fmt.Sprintf("A-test:test-invocations-changed-the-node:%s..%s", ps[0], ps[len(ps)-1]), caseRec{Layer: "A", Mode: "test-chunk", Prog: ps[0], History: ps,
+						What: []string{"test-invocations-changed-the-node"}, Detail: []string{err.Error()}})
+				}
+				rg.close()
+				return
+			}
+			if stateSig(st) != s0sig && !leaked {
+				ps := all[ci*chunk : min(len(all), (ci+1)*chunk)]
+				r.Outcome("A:test:node-state-changed")
+				if c.admit("test", []string{"test-invocations-changed-the-node"}) {
+					r.Violation(fmt.Sprintf("A-test:test-invocations-changed-the-node:%s..%s", ps[0], ps[len(ps)-1]), caseRec{Layer: "A", Mode: "test-chunk", Prog: ps[0], History: ps,
+						What: []string{"test-invocations-changed-the-node"}, Detail: []string{"before: " + s0sig, "after: " + stateSig(st)}})
+				}
+			}
+			if stateSig(st) != s0sig {
+				rg.close() // do not reuse a replica whose state changed
+				return
+			}
+			c.leakChecks.Inc()
+			c.putRig(rg)
+		}()
 		for _, p := range all[ci*chunk : min(len(all), (ci+1)*chunk)] {
 			if r.TooMany() {
 				return
@@ -388,6 +493,9 @@ func TestCheck(t *testing.T) {
 			c.execs.Inc()
 			c.calls.Add(m.Calls + 1)
 			c.states.Add(stateSig(m.State))
+			if fs := famOf[p]; fs != nil {
+				fs.add(m)
+			}
 			switch {
 			case !m.Halt:
 				faulted.Inc()
@@ -400,6 +508,9 @@ func TestCheck(t *testing.T) {
 			}
 			if len(what) > 0 {
 				c.reportTest(rg, p, what, detail)
+				if st, err := rg.initState(); err == nil && stateSig(st) != s0sig {
+					leaked = true
+				}
 			} else if m.Undone && m.Halt {
 				r.Sample(map[string]any{"layer": "A", "mode": "test", "prog": p, "log": m.Log, "notifications": m.State.Notes, "storage": m.State.storLines()})
 			}
@@ -420,8 +531,14 @@ func TestCheck(t *testing.T) {
 	// ---- layer A, real blocks ----
 	var bUndone, bFault, bHalt vk.Counter
 	nbc := (len(blk) + blockChunk - 1) / blockChunk
-	r.Parallel(nbc, func(ci int) {
-		ps := blk[ci*blockChunk : min(len(blk), (ci+1)*blockChunk)]
+	r.Parallel(nbc+len(solo), func(ci int) {
+		var ps []string
+		if ci < len(solo) {
+			ps = solo[ci : ci+1] // may destroy an instance: a replica pair of its own
+		} else {
+			ci -= len(solo)
+			ps = blk[ci*blockChunk : min(len(blk), (ci+1)*blockChunk)]
+		}
 		for len(ps) > 0 && !r.TooMany() {
 			n := c.blockChunk(ps, &bUndone, &bFault, &bHalt)
 			if n < 0 {
@@ -431,7 +548,8 @@ func TestCheck(t *testing.T) {
 		}
 	})
 	fmt.Printf("layer A real blocks: %d programs, %.1fs\n", bUndone.Get()+bFault.Get()+bHalt.Get(), r.Elapsed())
-	c.finish(r, all, blk, spaceInfo, hInfo, bstat, ccov, cexecs, map[string]*vk.Counter{"A:test:HALT:callee-changes-undone": &undone, "A:test:HALT:callee-failed-nothing-to-undo": &restoredNoop,
+	c.famStats = famStats
+	c.finish(r, all, blk, len(solo), spaceInfo, hInfo, bstat, ccov, cexecs, map[string]*vk.Counter{"A:test:HALT:callee-changes-undone": &undone, "A:test:HALT:callee-failed-nothing-to-undo": &restoredNoop,
 		"A:test:HALT:no-failure": &plain, "A:test:FAULT": &faulted, "A:block:HALT:callee-changes-undone": &bUndone, "A:block:FAULT": &bFault, "A:block:HALT:other": &bHalt})
 }
 
@@ -463,7 +581,7 @@ func (c *checker) blockChunk(ps []string, bUndone, bFault, bHalt *vk.Counter) in
 	}
 }
 
-func (c *checker) finish(r *vk.Run, all, blk []string, spaceInfo, hInfo []map[string]any, bstat atomicStat, ccov map[string]any, cexecs int, outcomes map[string]*vk.Counter) {
+func (c *checker) finish(r *vk.Run, all, blk []string, nsolo int, spaceInfo, hInfo []map[string]any, bstat atomicStat, ccov map[string]any, cexecs int, outcomes map[string]*vk.Counter) {
 	undone, restoredNoop, plain, faulted := outcomes["A:test:HALT:callee-changes-undone"], outcomes["A:test:HALT:callee-failed-nothing-to-undo"], outcomes["A:test:HALT:no-failure"], outcomes["A:test:FAULT"]
 	bUndone, bFault, bHalt := outcomes["A:block:HALT:callee-changes-undone"], outcomes["A:block:FAULT"], outcomes["A:block:HALT:other"]
 	for k, v := range outcomes {
@@ -475,12 +593,21 @@ func (c *checker) finish(r *vk.Run, all, blk []string, spaceInfo, hInfo []map[st
 		fmt.Printf("CHECK-ERROR: %d harness errors (see above)\n", n)
 		os.Exit(3)
 	}
+	var famCov []map[string]any
+	for _, fs := range c.famStats {
+		famCov = append(famCov, fs.cov())
+		for k, v := range map[string]int64{"HALT:callee-changes-undone": fs.haltUndone.Get(), "HALT:no-failure": fs.haltPlain.Get(), "FAULT": fs.fault.Get()} {
+			if v > 0 {
+				r.Outcome("A:test:" + fs.Name + ":" + k)
+			}
+		}
+	}
 	cov := map[string]any{
 		"states":                         c.states.Len(),
 		"transitions":                    int(c.calls.Get()),
 		"traces_validated_against_impl":  int(c.execs.Get()) + bstat.execs + cexecs,
 		"layerA_programs":                len(all),
-		"layerA_programs_in_real_blocks": len(blk),
+		"layerA_programs_in_real_blocks": len(blk) + nsolo,
 		"layerA_spaces":                  spaceInfo,
 		"layerA_handler_script_spaces":   hInfo,
 		"layerA_handler_script_model_counts": map[string]int64{"executions": c.hProgs.Get(), "catch_parts_entered": c.hCatches.Get(), "finally_parts_entered": c.hFinallies.Get(),
@@ -489,6 +616,8 @@ func (c *checker) finish(r *vk.Run, all, blk []string, spaceInfo, hInfo []map[st
 		"layerA_test_outcomes": map[string]int64{"halt_callee_changes_undone": undone.Get(), "halt_callee_failed_nothing_to_undo": restoredNoop.Get(),
 			"halt_no_failure": plain.Get(), "fault": faulted.Get()},
 		"layerA_block_outcomes":           map[string]int64{"halt_callee_changes_undone": bUndone.Get(), "fault": bFault.Get(), "halt_other": bHalt.Get()},
+		"layerA_new_families":                famCov,
+		"layerA_test_invocation_leak_checks": c.leakChecks.Get(),
 		"layerA_block_twin_differential": map[string]any{"programs_with_caught_failures_compared_with_bare_throw_twin": c.twins.Get(), "distinct_state_roots": c.twinStates.Len(),
 			"compared": "state root (storage of all contracts and natives) after the block; identical signers, fees, nonce"},
 		"layerB":                          bstat.cov,
@@ -500,7 +629,11 @@ func (c *checker) finish(r *vk.Run, all, blk []string, spaceInfo, hInfo []map[st
 		"the reference interpreter follows the property text: every call remembers the state at its entry and a callee that fails with an exception is undone completely; the implementation's 'only if the caller has an active TRY' optimisation is what is being checked",
 		"taken from the code, not from the property: only THROW is catchable (ABORT, failing native calls, missing call flags fault); an exception crossing a native frame (onNEP17Payment callback) faults; NEP-17 transfer semantics; GAS bonus of a NEO transfer is read from NEO.unclaimedGas before the block",
 		"AppExecResult.Events of a FAULTed transaction are not part of the oracle (the node keeps them in the execution log but does not dispatch them; see report)",
-		"U's TRY is Go defer/recover: a handler runs after the TRY block ended; calls from catch/finally blocks of a hand-written script are outside the program space",
+		"U's TRY is Go defer/recover (a handler runs after the TRY block ended); calls made from inside TRY, CATCH and FINALLY parts of handlers nested in one context are driven by hand-assembled entry scripts (H programs)",
+		"taken from the VM (not from the property), for hand-assembled scripts: the VM keeps ONE pending exception (THROW sets it, entering a CATCH part clears it, every ENDFINALLY - also of a callee - rethrows while it is set); a FINALLY part entered by an exception whose pending exception is cleared inside it faults at ENDFINALLY (no end offset)",
+		"open finding pending-exception-drops-completed-call: differences that are completely explained by the model variant 'a call that RETURNS while an exception is pending loses its changes' are reported under that key prefix (listed in KNOWN_FINDINGS.txt); the reference interpreter itself keeps such calls, as the property text demands",
+		"iterator programs in which a change of the iterated storage survives until the iterator is consumed are not generated: what an open iterator yields after a committed write is not part of the property",
+		"twin differential: a program and its twin (failed callees replaced by bare THROWs, same signers/fees/nonce) must reach the same state root; identical transactions on the two replicas must do so too",
 	})
 }
 
